@@ -63,6 +63,8 @@ def run(ctx, tier, res=None, prop='C01', tag=''):
                               % (FC.fnloc(ctx, g), fld['width'], f['format'], fld['name'], R))
             else:
                 res.ok()
+    from .. import promises
+    promises.report(ctx, res, FC.accessor_functions(ctx, 'get'), promises.MEMORY_KINDS, tag)
     generic.run_reader(ctx, tier, res, tag)
     res.rule = ('one obligation per (format, field, access path): the closed-form result of the reader over a fully '
                 'symbolic header must equal the field bits of spec/formats.json, zero-extended, with an empty write set; '
